@@ -26,7 +26,7 @@ type variant struct {
 	oneofABA     bool // with oneofMulti, message members: an earlier occurrence of the SAME member, then another member, then the real one
 	oneofMsgLoser bool // with oneofMulti: the member that loses is a message member (written empty) where the oneof has one
 	oneofABAFull  bool // with oneofABA: the earlier occurrence A' is a different, self-sufficient value of the member type (every required field set)
-	mapShape     int  // 0 normal, 1 value-then-key, 2 omit zero key, 3 omit zero value, 4 duplicate key (first with other value)
+	mapShape     int  // 0 normal, 1 value-then-key, 2 omit zero key, 3 omit zero value, 4 duplicate key (first with other value), 5 omit both, 6 message value split over two occurrences inside the entry
 	explicitZero bool // implicit-presence fields holding zero are written explicitly
 	unknown      bool // unknown fields interleaved at every level
 	padded       bool // unknown fields use over-long (non-minimal but valid) varints for key, length prefix and varint value
@@ -42,6 +42,7 @@ var variantFamilies = []variant{
 	{family: "splitmsg", splitMsg: true},
 	{family: "splitmsg-empty", splitMsg: true, splitEmpty: true},
 	{family: "splitmsg+unknown", splitMsg: true, unknown: true},
+	{family: "splitmsg+reversed", splitMsg: true, order: 1},
 	{family: "oneofmulti", oneofMulti: true},
 	{family: "oneof-aba", oneofMulti: true, oneofABA: true},
 	{family: "oneof-aba-full", oneofMulti: true, oneofABA: true, oneofABAFull: true},
@@ -51,6 +52,7 @@ var variantFamilies = []variant{
 	{family: "mapomitval", mapShape: 3},
 	{family: "mapomitboth", mapShape: 5},
 	{family: "mapdup", mapShape: 4},
+	{family: "mapsplitval", mapShape: 6},
 	{family: "explicitzero", explicitZero: true},
 	{family: "unknown", unknown: true},
 	{family: "unknown+shuffled", unknown: true, order: 2},
@@ -214,6 +216,11 @@ func (e *venc) message(m protoreflect.Message, depth int) []byte {
 						e.applied++
 					case shape == 5 && valZero:
 						p = append(p, kb...)
+						e.applied++
+					case shape == 6 && vfd.Kind() == protoreflect.MessageKind && splitOccurrences(vb) != nil:
+						// the value field twice inside the entry, each occurrence carrying a part of the message; key in between
+						occ := splitOccurrences(vb)
+						p = append(append(append(p, occ[0]...), kb...), occ[1]...)
 						e.applied++
 					case shape == 1:
 						p = append(append(p, vb...), kb...)
@@ -533,4 +540,22 @@ func minimalComplete(md protoreflect.MessageDescriptor, depth int) *dynamicpb.Me
 		}
 	}
 	return d
+}
+
+// splitOccurrences takes the encoding of one length-delimited field holding a message with at least two fields and
+// returns two occurrences of the same field whose payloads concatenate to the original payload (nil otherwise).
+func splitOccurrences(field []byte) [][]byte {
+	fs, err := refwire.Walk(field)
+	if err != nil || len(fs) != 1 || fs[0].WT != refwire.WTLen {
+		return nil
+	}
+	inner, err := refwire.Walk(fs[0].Payload)
+	if err != nil || len(inner) < 2 {
+		return nil
+	}
+	cut := inner[len(inner)/2].Start
+	return [][]byte{
+		refwire.AppendLen(refwire.AppendKey(nil, fs[0].Num, refwire.WTLen), fs[0].Payload[:cut]),
+		refwire.AppendLen(refwire.AppendKey(nil, fs[0].Num, refwire.WTLen), fs[0].Payload[cut:]),
+	}
 }
